@@ -18,6 +18,7 @@ import (
 type C08Scenario struct {
 	Files     []SrcFile      `json:"files"` // materialised under src/
 	GitLog    string         `json:"git_log"`
+	GitLog2   string         `json:"git_log2"` // a second history, parsed in between two parses of the first
 	GoFile    string         `json:"go_file"`
 	Tree      []gen.TreeFile `json:"tree"`
 	Root      string         `json:"root"`
@@ -129,6 +130,7 @@ func (C08) Generate(t *tape.Tape, tier string) interface{} {
 		}
 	}
 	sc.GitLog = gen.GenGitLog(t)
+	sc.GitLog2 = gen.GenGitLog(t)
 	sc.Tree = gen.GenClocTree(t)
 	sc.GoFile = gen.GenGoFile(t)
 	k := 4
@@ -731,19 +733,35 @@ func (C08) Run(ctx *sim.RunCtx, data json.RawMessage) (*sim.Outcome, error) {
 				arte["go.container"] = "failed"
 			}
 		}
-		// git reports (API level)
-		res, err := ctx.Run(&sim.Proc{Schedule: s, Cwd: w, Ops: []sim.Op{{Op: "git", Args: map[string]interface{}{"log": gitLog}}}})
+		// git reports (API level): the history is parsed, then another one, then the first again - in
+		// one process; "the same input gives the same output on every run" also holds for the third parse
+		gitLog2 := filepath.Join(w, "gitlog2.txt")
+		os.WriteFile(gitLog2, []byte(sc.GitLog2), 0644)
+		res, err := ctx.Run(&sim.Proc{Schedule: s, Cwd: w, Ops: []sim.Op{{Op: "git", Args: map[string]interface{}{"logs": []string{gitLog, gitLog2, gitLog}}}}})
 		if err != nil {
 			return nil, err
 		}
 		nonCanon += res.NonCanon
 		if res.Completed(0) && res.Records[0].OK {
-			g, err := canonGit(res.Records[0].Result)
+			var parts []json.RawMessage
+			if err := json.Unmarshal(res.Records[0].Result, &parts); err != nil || len(parts) != 3 {
+				return nil, fail("git", fmt.Errorf("expected three results"))
+			}
+			g, err := canonGit(parts[0])
 			if err != nil {
 				return nil, fail("git", err)
 			}
 			for k, v := range g {
 				arte[k] = v
+			}
+			g3, err := canonGit(parts[2])
+			if err != nil {
+				return nil, fail("git", err)
+			}
+			for k, v := range g3 {
+				if v != g[k] {
+					add("git-reparse-differs/"+k, fmt.Sprintf("schedule %d: %s of the same log differs between the first and the third parse in one process (another log was parsed in between):\n--- first\n%s\n--- third\n%s", si, k, clipDiff(g[k], v), clipDiff(v, g[k])), map[string]string{"report": k})
+				}
 			}
 		} else {
 			arte["git.outcome"] = "failed"
